@@ -304,7 +304,18 @@ def _num_near(b):
 
 
 def probes(s, limit=40, depth=0):
-    """Deterministic list of instances engaging schema s (a pure function of s)."""
+    """Deterministic list of instances engaging schema s (a pure function of s).  Never raises: whatever goes wrong
+    while deriving instances from an odd schema (liberal schemas carry arbitrary keyword values) only costs the
+    derived instances, the fixed ones are still returned."""
+    try:
+        return _probes(s, limit, depth)
+    except RecursionError:
+        raise
+    except Exception:
+        return list(FIXED_PROBES)
+
+
+def _probes(s, limit=40, depth=0):
     if not isinstance(s, dict) or depth > 2:
         return list(FIXED_PROBES[:6 if depth else len(FIXED_PROBES)])
     h = hints(s)
@@ -333,7 +344,11 @@ def probes(s, limit=40, depth=0):
     for kw in ("multipleOf", "divisibleBy"):
         dv = s.get(kw)
         if isinstance(dv, int) and not isinstance(dv, bool) and dv > 0:
-            out += [2 ** 53 + 1, (2 ** 53 + 1) * dv, (2 ** 53 + 1) * dv + 1, 10 ** 20 + 1, float(4 * dv), 4.5 * dv]
+            out += [2 ** 53 + 1, (2 ** 53 + 1) * dv, (2 ** 53 + 1) * dv + 1, 10 ** 20 + 1]
+            try:
+                out += [float(4 * dv), 4.5 * dv]
+            except OverflowError:       # a divisor no float can hold
+                pass
     nums = _uniq(h["nums"])
     if len(nums) >= 2:
         a, b = nums[0], nums[1]
